@@ -42,7 +42,7 @@ from . import c13_realize as rz
 SPEC = 'spec/web'
 PID = 'C13'
 BUFSIZE = 4096          # a read event never carries more than the transport's buffer size
-ALL_DEFECTS = ['linecrlf', 'lastchunk', 'nobody', 'untilclose', 'emptyhdr']
+ALL_DEFECTS = ['linecrlf', 'lastchunk', 'nobody', 'nobody304', 'untilclose', 'emptyhdr']
 
 F_STATUS, F_METHOD, F_PATH, F_QUERY, F_VERSION, F_HEADERS, F_BODY, F_RESP = 1, 2, 4, 8, 16, 32, 64, 128
 
@@ -459,6 +459,11 @@ def probe_defects():
     p.execute(part, len(part))
     if not p.is_message_complete():
         found.append('nobody')
+    p = HttpParser(1, True)
+    part = b'HTTP/1.1 304 Not Modified\r\nServer: x\r\n\r\n'
+    p.execute(part, len(part))
+    if not p.is_message_complete():
+        found.append('nobody304')
     data, lay = rz.compose(b'HTTP/1.0 200 OK', [b'Server: x'], ('close', b'hello'))
     lay.update(status=200, ver=10, ka=False)
     lines, _ = run_client([data], [lay], [[]])
@@ -715,19 +720,31 @@ def _run(ctx, rnd, quick, scratch):
         jobs['mc_cov'] = lambda: tlc.model_check(SPEC, 'HttpFraming', 'MC_HttpFraming.cfg', workers=2, coverage=True,
                                                  jvm_opts=('-Xmx2g',))
         for d, side in (('linecrlf', 'server'), ('lastchunk', 'server'), ('linecrlf', 'client'), ('lastchunk', 'client'),
-                        ('nobody', 'client'), ('untilclose', 'client'), ('emptyhdr', 'client')):
+                        ('nobody', 'client'), ('nobody304', 'client'), ('untilclose', 'client'), ('emptyhdr', 'client')):
             jobs['def_%s_%s' % (d, side)] = (lambda d=d, side=side: tlc.run_tlc(
                 SPEC, 'HttpFraming', 'MC_HttpFraming_def_%s_%s.cfg' % (d, side), workers=2, jvm_opts=('-Xmx2g',)))
     results = {}
+    job_wall = {}
+
+    def timed(name, fn):
+        t = time.time()
+        try:
+            return fn()
+        finally:
+            job_wall[name] = round(time.time() - t, 1)
+
     with ThreadPoolExecutor(max_workers=4) as ex:
-        futs = {name: ex.submit(fn) for name, fn in jobs.items()}
+        futs = {name: ex.submit(timed, name, fn) for name, fn in jobs.items()}
         for name, f in futs.items():
             results[name] = f.result()
     mc = results['mc']
     if not quick:
-        cov = results['mc_cov'].coverage
-        for act in ('Read', 'PeerClose', 'NextMsg'):
-            if act not in cov or cov[act][1] == 0:
+        # (Read is the quantified disjunct of Next: TLC reports it as `<Next line .. (l c l c)>`, which
+        # harness/tlc.py's pattern does not match)
+        cov = {m.group(1): int(m.group(2)) for m in
+               re.finditer(r'^<(\w+) line [^>]*>: \d+:(\d+)', results['mc_cov'].out, re.M)}
+        for act in ('Next', 'PeerClose', 'NextMsg'):
+            if cov.get(act, 0) == 0:
                 raise tlc.MachineryError('vacuous model: action %s never taken (%s)' % (act, cov))
     teeth = {}
     for name, r in results.items():
@@ -770,11 +787,21 @@ def _run(ctx, rnd, quick, scratch):
                 ctx.note_drift('%s %s msgs=%s cuts=%s: %s' % (case.side, case.origin, [l['tag'] for l in case.lays], case.cutss, why))
     t_replay = time.time() - t0 - t_tlc
 
-    # 3. TLC judges every recorded trace
+    # 3. TLC judges every recorded trace; 5. in the same batch: corrupted copies of real traces, which must be
+    #    rejected with the expected clause whenever the original is accepted (binding demonstration)
     batch = [trace_of(c, l) for c, l in zip(cases, traces)]
-    verdicts, stats = tlc.validate_traces(SPEC, 'HttpFramingTrace', 'HttpFramingTrace.cfg', batch,
-                                          shards=4 if quick else 12, jvm_opts=('-Xmx3g',))
-    accepted = []
+    cand = [i for i, tr in enumerate(batch) if len(tr['lines']) < 60]
+    rnd.shuffle(cand)
+    muts = []
+    for i in cand[:(400 if quick else 2000)]:
+        mt = mutate_trace(rnd, batch[i])
+        if mt:
+            muts.append((i,) + mt)
+    verdicts, stats = tlc.validate_traces(SPEC, 'HttpFramingTrace', 'HttpFramingTrace.cfg', batch + [mt[1] for mt in muts],
+                                          shards=8 if quick else 12, jvm_opts=('-Xmx2g',))
+    mverdicts = verdicts[len(batch):]
+    verdicts = verdicts[:len(batch)]
+    accepted = 0
     per_origin = {}
     for case, lines, tr, (clause, line) in zip(cases, traces, batch, verdicts):
         nontrivial = any(case.cutss) or len(case.datas) > 1
@@ -787,24 +814,15 @@ def _run(ctx, rnd, quick, scratch):
         if clause:
             ctx.violation(clause, witness_of(case, lines, clause, line), detail_of(case, lines, line))
         else:
-            accepted.append(tr)
-
-    # 5. binding demonstration: corrupted real traces must be rejected, with the expected clause
-    muts = []
-    pool = [tr for tr in accepted if len(tr['lines']) < 60]
-    rnd.shuffle(pool)
-    for tr in pool:
-        if len(muts) >= (60 if quick else 400):
-            break
-        mt = mutate_trace(rnd, tr)
-        if mt:
-            muts.append(mt)
-    if muts:
-        mv, _ = tlc.validate_traces(SPEC, 'HttpFramingTrace', 'HttpFramingTrace.cfg', [mt[0] for mt in muts], shards=2)
-        for (tr, what, want), (c, _) in zip(muts, mv):
-            if not c.startswith(want):
-                raise tlc.MachineryError('trace spec judged a corrupted trace (%s) as %r, expected %s' % (what, c, want))
-    elif accepted:
+            accepted += 1
+    nmut = 0
+    for (i, tr, what, want), (c, _) in zip(muts, mverdicts):
+        if verdicts[i][0]:
+            continue                      # the original was rejected already: says nothing
+        nmut += 1
+        if not c.startswith(want):
+            raise tlc.MachineryError('trace spec judged a corrupted trace (%s) as %r, expected %s' % (what, c, want))
+    if accepted and not nmut:
         raise tlc.MachineryError('no accepted trace could be corrupted for the self-test')
 
     return ctx.finish(coverage={
@@ -818,12 +836,12 @@ def _run(ctx, rnd, quick, scratch):
         'model_defects_probed_in_tree': defects,
         'defect_variants_violate': sorted(teeth),
         'trace_validation_states': stats['states'],
-        'corrupted_traces_rejected': len(muts),
-        'accepted_traces': len(accepted),
-        'wall_tlc_s': round(t_tlc, 1), 'wall_replay_s': round(t_replay, 1),
+        'corrupted_traces_rejected': nmut,
+        'accepted_traces': accepted,
+        'wall_tlc_s': round(t_tlc, 1), 'wall_replay_s': round(t_replay, 1), 'wall_tlc_jobs_s': job_wall,
         'rule': 'cases = (side, concrete messages of one connection, cut offsets per message); from every maximal '
                 'environment history TLC dumps for the HIST plans of HttpFraming.tla (single cuts at every offset, '
-                'byte-at-a-time prefixes, pairs/triples of cuts around structural boundaries, keep-alive sequences) on the '
+                'byte-at-a-time delivery, pairs/triples of cuts around structural boundaries, keep-alive sequences) on the '
                 'server pipeline and on the client component, plus seeded random layouts and cuts; non-trivial = at least '
                 'one cut or more than one message; distinct by hash of (side, bytes, cuts)',
         'exhaustive': False,
